@@ -473,9 +473,9 @@ fn write_function(
         call_location,
         context,
     )?;
-    check_output_arguments(id, &param_values, call_location, context)?;
     // Apply implicit casts
     let param_values = apply_casts(casts, param_values, context);
+    check_output_arguments(id, &param_values, call_location, context)?;
 
     let return_type = context
         .module
@@ -529,9 +529,9 @@ fn write_method(
         call_location,
         context,
     )?;
-    check_output_arguments(id, &param_values, call_location, context)?;
     // Apply implicit casts
     let mut param_values = apply_casts(casts, param_values, context);
+    check_output_arguments(id, &param_values, call_location, context)?;
     // Add struct as implied first argument
     param_values.insert(0, unresolved.object_value);
 
